@@ -499,7 +499,7 @@ pub const C27: Check = Check {
            {0,1,len+-1,2^31,2^32-1,2^63,2^64-1}, archive pointer rewrites (bucket entries, next links and the empty chain \
            pointing to self / an earlier object / past EOF / into the index), size and length field rewrites, plus random \
            bytes; each case runs the real decoders (StoredPointHeader/Manifest/Object/Status::read, RepositoryState parse, \
-           Archive::open/verify/fetch/objects, RrdpArchive::open/load_state/load_object/objects) in a forked child under \
+           Archive::open/verify/fetch/objects, RrdpArchive::open/load_state/load_object/objects followed by the writes an update would make: update_state, update_object with same-length data, delete_object, publish_object; Archive::update with same-length and other-length data, delete, publish) in a forked child under \
            three monitors: panic capture, abort/signal attribution, allocation monitor (largest single request must stay \
            below 16 MiB + 64 x input length) and a CPU-time budget (5 s against microseconds normal; re-run once with \
            double budget before a non-termination verdict). Allowed outcomes: value or reported error. distinct = \
@@ -544,7 +544,10 @@ fn decode_archive(decoder: &str, path: &std::path::Path, names: &[Vec<u8>]) -> b
             let mut a: Archive<TagMeta> = match Archive::open(path, true) { Ok(a) => a, Err(_) => return false };
             let mut ok = true;
             for (i, n) in names.iter().enumerate() {
-                match i % 3 {
+                match i % 4 {
+                    // rewrite with data of exactly the stored length (the in-place path) ...
+                    3 => { let len = a.fetch(n).map(|d| d.len()).unwrap_or(0); if a.update(n, &TagMeta([7; 4]), &vec![0x55u8; len], |_| Ok(())).is_err() { ok = false } }
+                    // ... and with data of another length
                     0 => if a.update(n, &TagMeta([9; 4]), b"new-data-for-update", |_| Ok(())).is_err() { ok = false },
                     1 => if a.delete(n, |_| Ok(())).is_err() { ok = false },
                     _ => if a.publish(b"fresh-name", &TagMeta([1; 4]), &[5u8; 700]).is_err() { ok = false },
@@ -559,6 +562,22 @@ fn decode_archive(decoder: &str, path: &std::path::Path, names: &[Vec<u8>]) -> b
             let mut ok = a.load_state().is_ok();
             for n in names { if let Ok(u) = uri::Rsync::from_bytes(Bytes::from(n.clone())) { if a.load_object(&u).is_err() { ok = false } } }
             match a.objects() { Ok(it) => { for (i, item) in it.enumerate() { if item.is_err() || i > 100_000 { ok = false; break } } } Err(_) => ok = false }
+            // what the next update does with such an archive: rewrite the state record (304 / delta path) and rewrite,
+            // add and delete objects as a delta would
+            let state = a.load_state().ok();
+            drop(a);
+            if let Ok(Some(mut w)) = RrdpArchive::try_open(p.clone()) {
+                if let Some(st) = state { if w.update_state(&st).is_err() { ok = false } }
+                for (i, n) in names.iter().enumerate() {
+                    let Ok(u) = uri::Rsync::from_bytes(Bytes::from(n.clone())) else { continue };
+                    let old = w.load_object(&u).ok().flatten();
+                    match (i % 3, old) {
+                        (0, Some(old)) => { if w.update_object(&u, rpki::rrdp::Hash::from_data(&old), &vec![0x33u8; old.len()]).is_err() { ok = false } }
+                        (1, Some(old)) => { if w.delete_object(&u, rpki::rrdp::Hash::from_data(&old)).is_err() { ok = false } }
+                        _ => { if w.publish_object(&u, b"replacement content").is_err() { ok = false } }
+                    }
+                }
+            }
             ok
         }
     }
